@@ -773,12 +773,19 @@ package lorawan
 
 // ----- MAC-command stream decoder (FOpts / FRMPayload on port 0)
 //@ func decodeDataPayloadToMACCommands
-//@   props C09 C10
+//@   props C07 C09 C10
 //@   uses registry_ok
 //@   requires typed-nil: len(payloads) == 1 && istype(payloads[0], "*DataPayload") ==> as(payloads[0], "*DataPayload") != nil
 //@   loop 0: invariant bounds: 0 <= i && i <= len(dataPL.Bytes)
 //@   loop 0: invariant outfresh: out == nil || fresh(out)
 //@   loop 0: decreases len(dataPL.Bytes) - i
+// framing recurrence (C07 streams, unbounded): every iteration consumes the CID byte plus the
+// registered payload size of that CID for this direction (0 if the CID is unknown), appends exactly one
+// MACCommand carrying that CID and leaves the commands decoded before untouched
+//@   loop 0: step advance: i == prev(i) + 1 + ite(haskey(macPayloadRegistry[uplink], CID(dataPL.Bytes[prev(i)])), macPayloadRegistry[uplink][CID(dataPL.Bytes[prev(i)])].size, 0)
+//@   loop 0: step one-more: len(out) == prev(len(out)) + 1
+//@   loop 0: step cid: istype(out[len(out)-1], "*MACCommand") && as(out[len(out)-1], "*MACCommand").CID == CID(dataPL.Bytes[prev(i)])
+//@   loop 0: step keep: forall k int :: 0 <= k && k < prev(len(out)) ==> out[k] == prev(out[k])
 //@   ensures C10/fresh: err == nil ==> result == nil || fresh(result)
 
 // ----- CFList (type 1): up to six 2-byte channel masks; trailing all-zero masks are padding
